@@ -3,10 +3,10 @@ CONSTANTS
   RefMax = 6
   QryLens = {2, 3}
   QryMax = 4
-  PeakCounts = {2}
+  PeakCounts = {2, 3}
   PeakSet <- PeaksQuick
-  MaxDSet = {1}
-  MsSet = {2}
+  MaxDSet = {1, 2}
+  MsSet = {2, 3}
   BsSet = {2}
   SjSet = {1}
   Scale = 360360
